@@ -280,6 +280,11 @@ pub struct Sim {
 pub const SCRIPT_LEN: usize = 7;
 
 pub fn start(u: &Uni, lite: bool) -> Result<Sim, String> {
+    start_with(u, lite, true)
+}
+
+/// `with_chain` = false: a node that has not stored any block yet
+pub fn start_with(u: &Uni, lite: bool, with_chain: bool) -> Result<Sim, String> {
     let mut cfg = Cfg::new(10, crate::factory::HEARTBEAT);
     cfg.spv = lite;
     let mut n = FullNode::new(key(9), cfg, MemIO::new(), ManualClock::new(10_000_000));
@@ -287,7 +292,7 @@ pub fn start(u: &Uni, lite: bool) -> Result<Sim, String> {
     if !n.init().is_done() {
         return Err("init".into());
     }
-    for &i in u.base.iter() {
+    for &i in u.base.iter().filter(|_| with_chain) {
         let bc = n.blockchain.clone();
         let mp = n.mempool.clone();
         let cfg = n.cfg.clone();
@@ -1026,27 +1031,41 @@ fn shape_sweep(u: &Uni, rep: &mut Report) {
         [SlipType::BlockStake, SlipType::Normal, SlipType::Normal],
     ];
     let atk = key(3);
-    let mut cases: Vec<(TransactionType, usize, usize, usize, usize, u64, usize)> = vec![];
+    // payload lengths: the golden ticket payload has a fixed size (97), every other type is free
+    let mut cases: Vec<(TransactionType, usize, usize, usize, usize, u64, usize, usize)> = vec![];
     for ty in types {
         for nf in 0..=3usize {
             for nt in 0..=3usize {
                 for fp in 0..slip_pats.len() {
                     for tp in [0usize, 1] {
-                        for (sender, pos) in [(XA, 0usize), (XU, 2)] {
-                            cases.push((ty, nf, nt, fp, tp, sender, pos));
+                        // pos 99 = the node has no chain yet
+                        for (sender, pos) in [(XA, 0usize), (XU, 2), (XA, 99)] {
+                            if pos == 99 && !(fp == 0 && tp == 0) {
+                                continue;
+                            }
+                            let lens: Vec<usize> = if ty == TransactionType::GoldenTicket {
+                                if fp == 0 && tp == 0 { vec![97, 0, 1, 96, 98, 194] } else { vec![97] }
+                            } else if fp == 0 && tp == 0 && nf == 1 && nt == 1 {
+                                vec![5, 0, 97]
+                            } else {
+                                vec![5]
+                            };
+                            for dl in lens {
+                                cases.push((ty, nf, nt, fp, tp, sender, pos, dl));
+                            }
                         }
                     }
                 }
             }
         }
     }
-    let results = par_map(&cases, workers(), |_, &(ty, nf, nt, fp, tp, sender, pos)| {
+    let results = par_map(&cases, workers(), |_, &(ty, nf, nt, fp, tp, sender, pos, dl)| {
         let mut r = rep.child();
         r.evaluations += 1;
         let mut tx = Transaction::default();
         tx.transaction_type = ty;
         tx.timestamp = 1_500_000;
-        tx.data = if ty == TransactionType::GoldenTicket { vec![7u8; 97] } else { b"shape".to_vec() };
+        tx.data = vec![7u8; dl];
         for i in 0..nf {
             let mut sl = Slip::default();
             sl.public_key = atk.public;
@@ -1064,16 +1083,17 @@ fn shape_sweep(u: &Uni, rep: &mut Report) {
             tx.to.push(sl);
         }
         tx.sign(&atk.private);
-        let what = format!("TxShape/{:?}/from{}/to{}/{:?}/{:?}/{}", ty, nf, nt, slip_pats[fp][0], slip_pats[tp][0], who(sender));
-        let mut s = match start(u, false) {
+        let what = format!("TxShape/{:?}/from{}/to{}/{:?}/{:?}/data{}/{}", ty, nf, nt, slip_pats[fp][0], slip_pats[tp][0], dl, who(sender));
+        let mut s = match start_with(u, false, pos != 99) {
             Ok(s) => s,
             Err(e) => {
                 r.machinery(e);
                 return r;
             }
         };
+        let what = if pos == 99 { format!("{}/empty-chain", what) } else { what };
         let mut hist: Vec<Ev> = vec![];
-        for _ in 0..pos {
+        for _ in 0..(if pos == 99 { 0 } else { pos }) {
             hist.push(Ev::Honest);
             let _ = apply(u, &mut s, Ev::Honest, &mut r.child(), &hist);
             let _ = s.n.settle();
